@@ -329,16 +329,27 @@ func retryAltLoops(w *World, o *Options, encs []*Enc, obls []*Obligation, workDi
 			}
 		}
 		solveAll(obls2, workDir, o.timeoutMs, o.tier == "thorough", par)
-		ok := len(obls2) > 0
-		for _, ob := range obls2 {
-			if ob.Status != "discharged" {
-				ok = false
+		bad1, bad2 := 0, 0
+		for _, ob := range obls {
+			if ob.enc == e && ob.Status != "discharged" {
+				bad1++
 			}
 		}
-		if !ok {
+		for _, ob := range obls2 {
+			if ob.Status != "discharged" {
+				bad2++
+			}
+		}
+		if len(obls2) == 0 || bad2 >= bad1 {
 			continue
 		}
-		fmt.Fprintf(os.Stderr, "note: %s: proved under the alternative loop clauses of its contract (the primary set has no proof for the current body)\n", e.key)
+		if bad2 == 0 {
+			fmt.Fprintf(os.Stderr, "note: %s: proved under the alternative loop clauses of its contract (the primary set has no proof for the current body)\n", e.key)
+		} else {
+			// neither set has a proof: report the one that comes closer (fewer open obligations), so that
+			// the named obligations are those of the loop shape the body actually has
+			fmt.Fprintf(os.Stderr, "note: %s: neither set of loop clauses has a proof; reporting the alternative set (%d open obligations, primary %d)\n", e.key, bad2, bad1)
+		}
 		encs[i] = e2
 		var keep []*Obligation
 		for _, ob := range obls {
